@@ -253,6 +253,30 @@ func (g *bridgeGen) schnorrV1ShapedDeposit(key *sim.BtcKey, evm []byte) *depInfo
 	return d
 }
 
+// ownScriptV1Deposit builds (with btcd, not with the node's code) the version 1 deposit for ANY ECDSA key, registered or not:
+// output 0 pays the key's P2WPKH script, output 1 carries OP_RETURN magic||evm. Whether it may be credited depends only on the
+// key being a registered relayer key on the state the message runs on.
+func (g *bridgeGen) ownScriptV1Deposit(key *sim.BtcKey, evm []byte) *depInfo {
+	c := g.s.C
+	params, err := c.App.BitcoinKeeper.Params.Get(c.ReadCtx())
+	if err != nil || keyType(key) != "secp256k1" {
+		return nil
+	}
+	out0, err := txscript.NewScriptBuilder().AddOp(txscript.OP_0).AddData(goatcrypto.Hash160Sum(key.Pub.GetSecp256K1())).Script()
+	if err != nil {
+		return nil
+	}
+	out1, err := txscript.NewScriptBuilder().AddOp(txscript.OP_RETURN).AddFullData(append(append([]byte{}, params.DepositMagicPrefix...), evm...)).Script()
+	if err != nil {
+		return nil
+	}
+	value := int64(12000 + g.r.Intn(60000))
+	d := &depInfo{version: 1, key: key, evm: evm, value: value, outIdx: 0, nOuts: 2,
+		gen: Ev{"key": project.KeyID(key.Pub), "evm": hex.EncodeToString(evm), "version": 1, "magicOk": true}}
+	d.raw, d.txid = btc.Tx(g.r, []btc.Out{{Value: value, Script: out0}, {Value: 0, Script: out1}}, 0)
+	return d
+}
+
 // depositMsgItem turns a known deposit into a message item, optionally corrupting one aspect.
 func (g *bridgeGen) depositItem(d *depInfo, flaw string) (*bitcointypes.Deposit, *bitcointypes.BlockHeader, Ev) {
 	blk := g.chain[d.blk]
@@ -562,6 +586,15 @@ func (g *bridgeGen) plan(mode string) (*BlockPlan, error) {
 				g.addPending(d.raw, func(b *btcBlock, pos int) { dd.blk, dd.pos, dd.mined = b.h, pos, true })
 				g.deps = append(g.deps, d)
 			}
+		}
+	}
+
+	if rare(5) && len(g.keys) > 1 { // a deposit to the script of some other key the harness knows: an older relayer key, or one whose
+		// registration failed / has not happened (never a relayer key on the committed state)
+		if d := g.ownScriptV1Deposit(g.keys[r.Intn(len(g.keys))], g.evms[r.Intn(len(g.evms))]); d != nil {
+			dd := d
+			g.addPending(d.raw, func(b *btcBlock, pos int) { dd.blk, dd.pos, dd.mined = b.h, pos, true })
+			g.deps = append(g.deps, d)
 		}
 	}
 
@@ -907,12 +940,46 @@ func (g *bridgeGen) plan(mode string) (*BlockPlan, error) {
 			}
 		}
 	}
+	// a registration that is undone: ONE transaction registers a new relayer key (genuine vote), credits a deposit paying that
+	// key's script, and then fails in its third message. Nothing of it may remain: the key is not a relayer key, the deposit is
+	// not credited - and stays refused when it is presented again later (it is in g.deps)
+	forceMerge := 0
+	if !votedUsed && rare(3) {
+		reg := map[string]bool{}
+		for _, k := range st.Pubkeys {
+			reg[k] = true
+		}
+		for _, d := range g.deps {
+			if d.mined && int64(d.blk) <= st.Tip && !reg[project.KeyID(d.key.Pub)] && d.gen["key"] == project.KeyID(d.key.Pub) && d.version == 1 {
+				m := &bitcointypes.MsgNewPubkey{Proposer: s.member(vc.Proposer).Bech, Pubkey: d.key.Pub}
+				vt, ok := s.fullVote(vc, "NewPubkey", m.VoteSigDoc(), false)
+				m.Vote = vt
+				if err := add(m, "pubkey", Ev{"wf": true, "key": project.KeyID(d.key.Pub), "voteOk": ok}); err != nil {
+					return nil, err
+				}
+				dep, hdr, f := g.depositItem(d, "none")
+				dm := &bitcointypes.MsgNewDeposits{Proposer: s.member(vc.Proposer).Bech, Deposits: []*bitcointypes.Deposit{dep}, BlockHeaders: []*bitcointypes.BlockHeader{hdr}}
+				if err := add(dm, "deposits", Ev{"wf": true, "deps": []Ev{f}}); err != nil {
+					return nil, err
+				}
+				am := &bitcointypes.MsgApproveCancellation{Proposer: s.member(vc.Proposer).Bech, Id: []uint64{99999}}
+				if err := add(am, "approve", Ev{"wf": true, "ids": []int64{99999}}); err != nil {
+					return nil, err
+				}
+				forceMerge = 3
+				break
+			}
+		}
+	}
 	// sometimes the last two or three messages travel in ONE transaction: if a later one fails, what the earlier ones did
 	// (voted hashes, a new key, credited deposits, withdrawal status changes) is undone
-	if n := len(plan.Txs); n >= 2 && rare(4) {
+	if n := len(plan.Txs); n >= 2 && (rare(4) || forceMerge > 0) {
 		k := 2
 		if n >= 3 && rare(2) {
 			k = 3
+		}
+		if forceMerge > 0 {
+			k = forceMerge
 		}
 		prop := s.member(vc.Proposer)
 		_, accSeq, _ := c.Account(prop.Addr)
